@@ -466,4 +466,123 @@ theorem version_around (m : Bool) (a b : List Line) (l l' : Line) (hl : sideLine
     (a ++ l :: b).filterMap (sideLine m) = a.filterMap (sideLine m) ++ l' :: b.filterMap (sideLine m) := by
   simp [List.filterMap_append, List.filterMap_cons, hl]
 
+/-! ### an offset of a version, seen as a byte of one of its lines -/
+
+theorem flat_length : ∀ (ls : List Line), (flat ls).length = size ls
+  | [] => rfl
+  | l :: ls => by simp [flat, size, flat_length ls]; omega
+
+/-- the bytes of the line `l` in `flat (l1 ++ l :: l2)`: its text, then the newline -/
+theorem flat_line (l1 l2 : List Line) (l : Line) (j : Nat) (hj : j ≤ l.text.length) :
+    (flat (l1 ++ l :: l2))[size l1 + j]? = if j < l.text.length then l.text[j]? else some nl := by
+  rw [flat_append, List.getElem?_append_right (by rw [flat_length]; omega), flat_length]
+  simp only [Nat.add_sub_cancel_left, flat, List.append_assoc]
+  by_cases h : j < l.text.length
+  · simp only [h, ↓reduceIte]
+    rw [List.getElem?_append_left h]
+  · have : j = l.text.length := by omega
+    subst this
+    simp only [Nat.lt_irrefl, ↓reduceIte]
+    rw [List.getElem?_append_right (Nat.le_refl _)]
+    simp
+
+/-- every offset inside a version lies in one of its lines -/
+theorem offset_split : ∀ (ls : List Line) (o : Nat), o < (flat ls).length →
+    ∃ l1 l l2 k, ls = l1 ++ l :: l2 ∧ k ≤ l.text.length ∧ o = size l1 + k
+  | [], o, h => by simp [flat] at h
+  | l :: ls, o, h => by
+    by_cases ho : o ≤ l.text.length
+    · exact ⟨[], l, ls, o, rfl, ho, by simp [size]⟩
+    · have hlen : (flat (l :: ls)).length = l.text.length + 1 + (flat ls).length := by
+        simp [flat]; omega
+      obtain ⟨l1, l', l2, k, hsplit, hk, hoff⟩ := offset_split ls (o - (l.text.length + 1)) (by omega)
+      refine ⟨l :: l1, l', l2, k, by simp [hsplit], hk, ?_⟩
+      simp only [size]; omega
+
+/-- **Three dots in a version are three dots of the patch file, and that is where they are reported.** For any patch
+file, any change found in it and either version `m` of its body: if the version holds `...` at offset `s`, then the place
+reported for `s` is the line and column of an offset `p` of the patch file at which the file holds `...` too. -/
+theorem dots_of_a_version_are_dots_of_the_file (u : Uni) (content : Bytes) (c : Change) (hc : c ∈ (split u content).1)
+    (m : Bool) (s : Nat)
+    (h0 : (build (c.patch.filterMap (sideLine m))).contents[s]? = some 46)
+    (h1 : (build (c.patch.filterMap (sideLine m))).contents[s + 1]? = some 46)
+    (h2 : (build (c.patch.filterMap (sideLine m))).contents[s + 2]? = some 46) :
+    ∃ p, (build (c.patch.filterMap (sideLine m))).positionIn content s = position content p ∧
+      content[p]? = some 46 ∧ content[p + 1]? = some 46 ∧ content[p + 2]? = some 46 := by
+  -- the lines of the version are slices of the file without a newline
+  have hsl : ∀ l' ∈ c.patch.filterMap (sideLine m), Slice content l' :=
+    filterMap_sideLine_slice content m c.patch (split_lines_slices u content c hc).1
+  have hraw : ∀ l ∈ c.patch, NoNl l := by
+    have := readProgram_P NoNl u content.length ((attachComments (rawLines content) []).length + 1) _
+      (attachComments_P NoNl (rawLines content) [] (rawLines_noNl content))
+    have hc' : c ∈ (readProgram u content.length ((attachComments (rawLines content) []).length + 1)
+        (attachComments (rawLines content) [])).1 := by
+      unfold split at hc
+      simp only at hc
+      split at hc <;> exact hc
+    exact (this c hc').1
+  have hnn : ∀ l' ∈ c.patch.filterMap (sideLine m), NoNl l' := by
+    intro l' hl'
+    obtain ⟨l, hl, hside⟩ := List.mem_filterMap.1 hl'
+    exact sideLine_noNl m l l' (hraw l hl) hside
+  generalize c.patch.filterMap (sideLine m) = ls at *
+  rw [build_eq] at h0 h1 h2
+  simp only at h0 h1 h2
+  have hlt : s < (flat ls).length := by
+    apply Nat.lt_of_not_le
+    intro hge
+    rw [List.getElem?_eq_none hge] at h0
+    exact absurd h0 (by simp)
+  obtain ⟨l1, l', l2, k, hsplit, hk, hoff⟩ := offset_split ls s hlt
+  subst hsplit
+  subst hoff
+  have hmem : l' ∈ l1 ++ l' :: l2 := by simp
+  -- the three offsets are bytes of the text of `l'`: none of them is its newline
+  have hnl46 : (nl : UInt8) ≠ 46 := by decide
+  have hk0 : k < l'.text.length := by
+    apply Nat.lt_of_not_le
+    intro hge
+    have hk' : k = l'.text.length := by omega
+    have := flat_line l1 l2 l' k hk
+    rw [h0, hk'] at this
+    simp only [Nat.lt_irrefl, ↓reduceIte, Option.some.injEq] at this
+    exact hnl46 this.symm
+  have hk1 : k + 1 < l'.text.length := by
+    apply Nat.lt_of_not_le
+    intro hge
+    have hk' : k + 1 = l'.text.length := by omega
+    have := flat_line l1 l2 l' (k + 1) (by omega)
+    rw [show size l1 + (k + 1) = size l1 + k + 1 by omega, h1, hk'] at this
+    simp only [Nat.lt_irrefl, ↓reduceIte, Option.some.injEq] at this
+    exact hnl46 this.symm
+  have hk2 : k + 2 < l'.text.length := by
+    apply Nat.lt_of_not_le
+    intro hge
+    have hk' : k + 2 = l'.text.length := by omega
+    have := flat_line l1 l2 l' (k + 2) (by omega)
+    rw [show size l1 + (k + 2) = size l1 + k + 2 by omega, h2, hk'] at this
+    simp only [Nat.lt_irrefl, ↓reduceIte, Option.some.injEq] at this
+    exact hnl46 this.symm
+  refine ⟨l'.off + k, ?_, ?_, ?_, ?_⟩
+  · rw [positionIn_line content l1 l2 l' k hk]
+    symm
+    apply position_add
+    intro j hj hcon
+    have hjlt : j < l'.text.length := by omega
+    have := hsl l' hmem j hjlt
+    rw [hcon, List.getElem?_eq_getElem hjlt] at this
+    exact hnn l' hmem _ (List.getElem_mem hjlt) (by simpa using this.symm)
+  · have := flat_line l1 l2 l' k hk
+    rw [h0] at this
+    simp only [hk0, ↓reduceIte] at this
+    rw [hsl l' hmem k hk0]; exact this.symm
+  · have := flat_line l1 l2 l' (k + 1) (by omega)
+    rw [show size l1 + (k + 1) = size l1 + k + 1 by omega, h1] at this
+    simp only [hk1, ↓reduceIte] at this
+    rw [show l'.off + k + 1 = l'.off + (k + 1) by omega, hsl l' hmem (k + 1) hk1]; exact this.symm
+  · have := flat_line l1 l2 l' (k + 2) (by omega)
+    rw [show size l1 + (k + 2) = size l1 + k + 2 by omega, h2] at this
+    simp only [hk2, ↓reduceIte] at this
+    rw [show l'.off + k + 2 = l'.off + (k + 2) by omega, hsl l' hmem (k + 2) hk2]; exact this.symm
+
 end Gopatch.Sec
